@@ -14,6 +14,16 @@ def _wire_key(r) -> tuple:
     return (r.request.method, r.request.url, hs, r.request.body)
 
 
+def _overridden(ctx, op_key: str) -> bool:
+    """Does a --set-* override name a parameter this operation declares?"""
+    ov = ctx.config.get("override") or {}
+    op = ctx.universe.ops.get(op_key)
+    if op is None:
+        return False
+    loc_of = {"query": "query", "headers": "header", "cookies": "cookie", "path_parameters": "path"}
+    return any(p.location == loc_of[loc] and p.name in names for loc, names in ov.items() for p in op.params)
+
+
 def judge(ctx, status: str) -> list[dict]:
     from schemathesis.engine import events
 
@@ -185,6 +195,7 @@ def judge(ctx, status: str) -> list[dict]:
                         # security parameter makes distinct cases identical on the wire
                         credential_replaces_generated=bool(
                             (cfg.get("headers") or cfg.get("auth")) and ctx.universe.desc.get("security") and ctx.universe.ops[r.op].secured),
+                        override_replaces_generated=_overridden(ctx, r.op),
                     )
                     break
                 seen[k] = r.phase
@@ -205,7 +216,8 @@ def judge(ctx, status: str) -> list[dict]:
                 k = _wire_key(r)
                 if k in groups.setdefault(scn, set()):
                     dup = True
-                    v("R5", f"with unique_inputs the same request was sent twice within one stateful scenario: {r.request.method} {r.request.url}", what="duplicate_request_stateful")
+                    v("R5", f"with unique_inputs the same request was sent twice within one stateful scenario: {r.request.method} {r.request.url}", what="duplicate_request_stateful",
+                      override_replaces_generated=_overridden(ctx, r.op) if r.op else False)
                     break
                 groups[scn].add(k)
 
